@@ -75,6 +75,76 @@ func init() {
 		}
 		return reReplaceAll(fr, h, src, repl)
 	}
+	// Find*/Match family: a transcription of regexp.(*Regexp).allMatches
+	// over the same matcher
+	handle := func(args []value) *reHandle { return (*args[0].(*value)).(*reHandle) }
+	srcOf := func(v value) []value {
+		if b, ok := v.([]value); ok {
+			return b
+		}
+		return []value(toSymstr(v))
+	}
+	pairs := func(ms [][2]int) value {
+		if len(ms) == 0 {
+			return []value(nil)
+		}
+		out := make([]value, len(ms))
+		for i, m := range ms {
+			out[i] = []value{m[0], m[1]}
+		}
+		return out
+	}
+	for _, n := range []string{"FindAllStringIndex", "FindAllIndex"} {
+		externals["(*regexp.Regexp)."+n] = func(fr *frame, args []value) value {
+			return pairs(reAllMatches(handle(args), srcOf(args[1]), args[2].(int)))
+		}
+	}
+	for _, n := range []string{"FindStringIndex", "FindIndex"} {
+		externals["(*regexp.Regexp)."+n] = func(fr *frame, args []value) value {
+			ms := reAllMatches(handle(args), srcOf(args[1]), 1)
+			if len(ms) == 0 {
+				return []value(nil)
+			}
+			return []value{ms[0][0], ms[0][1]}
+		}
+	}
+	for _, n := range []string{"MatchString", "Match"} {
+		externals["(*regexp.Regexp)."+n] = func(fr *frame, args []value) value {
+			return len(reAllMatches(handle(args), srcOf(args[1]), 1)) > 0
+		}
+	}
+	externals["(*regexp.Regexp).FindAllString"] = func(fr *frame, args []value) value {
+		src := srcOf(args[1])
+		ms := reAllMatches(handle(args), src, args[2].(int))
+		if len(ms) == 0 {
+			return []value(nil)
+		}
+		out := make([]value, len(ms))
+		for i, m := range ms {
+			out[i] = normStr(symstr(src[m[0]:m[1]]))
+		}
+		return out
+	}
+	externals["(*regexp.Regexp).FindAll"] = func(fr *frame, args []value) value {
+		src := srcOf(args[1])
+		ms := reAllMatches(handle(args), src, args[2].(int))
+		if len(ms) == 0 {
+			return []value(nil)
+		}
+		out := make([]value, len(ms))
+		for i, m := range ms {
+			out[i] = src[m[0]:m[1]:m[1]]
+		}
+		return out
+	}
+	externals["(*regexp.Regexp).FindString"] = func(fr *frame, args []value) value {
+		src := srcOf(args[1])
+		ms := reAllMatches(handle(args), src, 1)
+		if len(ms) == 0 {
+			return ""
+		}
+		return normStr(symstr(src[ms[0][0]:ms[0][1]]))
+	}
 	externals["(*regexp.Regexp).String"] = func(fr *frame, args []value) value {
 		return (*args[0].(*value)).(*reHandle).src
 	}
@@ -194,6 +264,58 @@ func (m *reMatcher) run(pc uint32, i int) int {
 			unsup("regexp model: instruction %v", inst.Op)
 		}
 	}
+}
+
+// reAllMatches transcribes regexp.(*Regexp).allMatches: the byte ranges
+// of up to n (all if n < 0) successive non-overlapping matches.
+func reAllMatches(h *reHandle, src []value, n int) [][2]int {
+	if h.prog == nil {
+		unsup("regexp model: pattern not compilable by regexp/syntax")
+	}
+	if strings.HasPrefix(h.src, "^") {
+		unsup("regexp model: anchored pattern")
+	}
+	if n < 0 {
+		n = len(src) + 1
+	}
+	runes := decodeChain(src)
+	posOf := func(ri int) int {
+		if ri >= len(runes) {
+			return len(src)
+		}
+		return runes[ri].pos
+	}
+	var out [][2]int
+	prevMatchEnd := -1
+	for pos, i := 0, 0; i < n && pos <= len(runes); {
+		ms, me := -1, -1
+		for s := pos; s <= len(runes); s++ {
+			m := &reMatcher{prog: h.prog, runes: runes, visited: map[[2]int]bool{}}
+			if e := m.run(uint32(h.prog.Start), s); e >= 0 {
+				ms, me = s, e
+				break
+			}
+		}
+		if ms < 0 {
+			break
+		}
+		accept := true
+		if me == pos {
+			// an empty match at pos
+			if ms == prevMatchEnd {
+				accept = false
+			}
+			pos++
+		} else {
+			pos = me
+		}
+		prevMatchEnd = me
+		if accept {
+			out = append(out, [2]int{posOf(ms), posOf(me)})
+			i++
+		}
+	}
+	return out
 }
 
 // reReplaceAll transcribes regexp.(*Regexp).replaceAll for a literal
